@@ -62,7 +62,13 @@ pub use imp::*;
 
 #[cfg(not(kani))]
 pub fn fail(label: &str) {
-    imp::FAILS.lock().unwrap().push(label.to_string());
+    use std::io::Write;
+    let mut fails = imp::FAILS.lock().unwrap();
+    if !fails.iter().any(|f| f == label) {
+        println!("FAIL: {}", label);
+        let _ = std::io::stdout().flush();
+        fails.push(label.to_string());
+    }
 }
 #[cfg(not(kani))]
 pub fn reached(label: &str) {
